@@ -14,8 +14,8 @@ for g in $groups; do
     git -C /repo apply /verif/$p || { echo "$p does not apply" | tee -a refactors/RESULTS.txt; continue; }
     line="$p:"
     for id in ${CHECKS[$g]}; do
-      if [ "$id" = "C20" ]; then ./vf check $id --only C20.R > /tmp/rf_$id.log 2>&1; c1=$?; ./vf check $id --only C20.F > /tmp/rf2_$id.log 2>&1; c2=$?; ./vf check $id --only C20.B2 > /tmp/rf3_$id.log 2>&1; c3=$?; code=$(( c1 > c2 ? c1 : c2 )); code=$(( code > c3 ? code : c3 )); cat /tmp/rf2_$id.log /tmp/rf3_$id.log >> /tmp/rf_$id.log
-      else ./vf check $id > /tmp/rf_$id.log 2>&1; code=$?; fi
+      if [ "$id" = "C20" ]; then VERIF_SCRATCH_OUT=/tmp/vf_scratch ./vf check $id --only C20.R > /tmp/rf_$id.log 2>&1; c1=$?; VERIF_SCRATCH_OUT=/tmp/vf_scratch ./vf check $id --only C20.F > /tmp/rf2_$id.log 2>&1; c2=$?; VERIF_SCRATCH_OUT=/tmp/vf_scratch ./vf check $id --only C20.B2 > /tmp/rf3_$id.log 2>&1; c3=$?; code=$(( c1 > c2 ? c1 : c2 )); code=$(( code > c3 ? code : c3 )); cat /tmp/rf2_$id.log /tmp/rf3_$id.log >> /tmp/rf_$id.log
+      else VERIF_SCRATCH_OUT=/tmp/vf_scratch ./vf check $id > /tmp/rf_$id.log 2>&1; code=$?; fi
       line="$line $id=$code"
       if [ $code -ne 0 ]; then grep -E "^(VIOLATION|UNDECIDED|CHECKER-CRASH)" -A1 /tmp/rf_$id.log | cut -c1-400 | head -6 >> refactors/DETAILS.txt; fi
     done
